@@ -866,6 +866,65 @@ func init() {
 		})
 	}
 
+	// ---- sync/atomic function forms on plain integer variables (the cell itself holds the value)
+	for _, ty := range []struct {
+		name string
+		wrap func(int64) value
+	}{
+		{"Int64", func(x int64) value { return x }},
+		{"Int32", func(x int64) value { return int32(x) }},
+		{"Uint64", func(x int64) value { return uint64(x) }},
+		{"Uint32", func(x int64) value { return uint32(x) }},
+	} {
+		ty := ty
+		cell := func(fr *frame, args []value, op string) *value {
+			it := fr.i
+			p := ptrArg(fr, args[0], "atomic."+op+ty.name)
+			it.schedPoint(fr, "atomic."+op)
+			if it.hb != nil {
+				it.hb.atomicOp(fr.g, p)
+			}
+			return p
+		}
+		num := func(v value) int64 {
+			switch u := v.(type) {
+			case *Sym:
+				abortf("atomic.%s on a symbolic value", ty.name)
+			case uint64:
+				return int64(u)
+			case uint32:
+				return int64(u)
+			}
+			return asInt64(v)
+		}
+		reg(map[string]externalFn{
+			"sync/atomic.Load" + ty.name: func(fr *frame, args []value) value { return *cell(fr, args, "Load") },
+			"sync/atomic.Store" + ty.name: func(fr *frame, args []value) value {
+				*cell(fr, args, "Store") = args[1]
+				return nil
+			},
+			"sync/atomic.Swap" + ty.name: func(fr *frame, args []value) value {
+				p := cell(fr, args, "Swap")
+				old := *p
+				*p = args[1]
+				return old
+			},
+			"sync/atomic.Add" + ty.name: func(fr *frame, args []value) value {
+				p := cell(fr, args, "Add")
+				*p = ty.wrap(num(*p) + num(args[1]))
+				return *p
+			},
+			"sync/atomic.CompareAndSwap" + ty.name: func(fr *frame, args []value) value {
+				p := cell(fr, args, "CompareAndSwap")
+				if num(*p) == num(args[1]) {
+					*p = args[2]
+					return true
+				}
+				return false
+			},
+		})
+	}
+
 	// ---- sync.Map (Load / Store / LoadOrStore / LoadAndDelete / Delete; keys must be concrete)
 	smOp := func(fr *frame, args []value, what string) (*interpreter, *syncMapState) {
 		it := fr.i
